@@ -11,6 +11,7 @@ package main
 
 import (
 	"fmt"
+	"regexp"
 	"time"
 )
 
@@ -191,6 +192,22 @@ func init() {
 			return in.sliceOfValues([]Value{s, num(s.b[0:2], s.tag.vals[0]), num(s.b[3:5], s.tag.vals[1])}, zero)
 		case pat == `(\d{4})-(\d{2})-(\d{2})` && s.tag != nil && s.tag.kind == "date":
 			return in.sliceOfValues([]Value{s, num(s.b[0:4], s.tag.vals[0]), num(s.b[5:7], s.tag.vals[1]), num(s.b[8:10], s.tag.vals[2])}, zero)
+		}
+		if cs, ok := s.conc(); ok {
+			// concrete subject: Go's own regexp decides
+			re, err := regexp.Compile(pat)
+			if err != nil {
+				in.unsupported("regexp: " + err.Error())
+			}
+			m := re.FindStringSubmatch(cs)
+			if m == nil {
+				return Slice{len: in.zero64, cap: in.zero64}
+			}
+			out := make([]Value, len(m))
+			for i := range m {
+				out[i] = concStr(in.tt, m[i])
+			}
+			return in.sliceOfValues(out, zero)
 		}
 		in.unsupported(fmt.Sprintf("regexp %q on an unstructured string", pat))
 		return nil
